@@ -66,8 +66,22 @@ def cases(draw, tier, stratum):
     if stratum == 'model_level':
         kinds += ['DeleteModel', 'RenameModel']
     opts = mutgen.WalkOpts(kinds=kinds, max_len=5, min_len=2, avoid=set(H.AVOID))
-    seq, _final = draw(mutgen.walks(spec, S.Features(meta=False, positive=False, relations=False,
-                                                     m2m=False), opts))
+    from .. import findings as F
+    seq = []
+    for _ in range(4):
+        # (redrawn until free of the optimiser-finding flags check() rejects)
+        seq, _final = draw(mutgen.walks(spec, S.Features(meta=False, positive=False,
+                                                         relations=False, m2m=False), opts))
+        try:
+            fl, _t = F.c03_flags({'mode': 'walk', 'spec': spec, 'seq': copy.deepcopy(seq),
+                                  'cuts': []}, {})
+        except Exception:
+            continue
+        if stratum == 'model_level':
+            for k_ in fl:
+                fl[k_].discard('model_level')
+        if not any(fl.values()):
+            break
     # make the evolution concern both sides: a nullable column for a model of
     # any side the walk did not reach
     touched, cur = set(), spec
